@@ -526,7 +526,79 @@ proof {
         }
         
 //@end
-//~not_decided declaration and main rules (table/build.rs: HashMap, closures), call rules (zip().enumerate()), variable rules (symbol table), therefore "a valid program gets no diagnostics at all"
+// ---------- call rules, per argument: the body of the argument loop of CallStatement::analyze (R6: lifted loop body)
+//@extract spl_frontend/src/table.rs :: struct VariableEntry
+//@ rewrite drop_derive
+//@end
+#[verifier::external_body]
+pub fn string_clone(s: &String) -> (r: String)
+    ensures r@ == s@,
+{ s.clone() }
+pub fn datatype_eq(a: &DataType, b: &DataType) -> (r: bool)
+    ensures r == (*a == *b),
+{ *a == *b }
+pub open spec fn is_must_be_variable(m: ErrorMessage, callee: Seq<char>, n: int) -> bool {
+    m matches ErrorMessage::SemanticErrorMessage(sm) && sm matches SemanticErrorMessage::ArgumentMustBeAVariable(s, k) && s@ == callee && k == n
+}
+pub open spec fn is_type_mismatch(m: ErrorMessage, callee: Seq<char>, n: int) -> bool {
+    m matches ErrorMessage::SemanticErrorMessage(sm) && sm matches SemanticErrorMessage::ArgumentsTypeMismatch(s, k) && s@ == callee && k == n
+}
+/// Reference-parameter rule: an argument for a `ref` parameter that is not a variable gets exactly one "argument must be a
+/// variable" naming the callee and the 1-based argument position, on the argument's own range.
+pub open spec fn must_be_var_ok(a: Expression, is_ref: bool, callee: Seq<char>, n: int, errs: Seq<SplError>) -> bool {
+    if is_ref && !(a is Variable) { errs.len() == 1 && errs[0].0 == expr_info(a).range && is_must_be_variable(errs[0].1, callee, n) } else { errs.len() == 0 }
+}
+/// Argument type rule: if both the argument and the parameter have a type and they differ, exactly one "argument type
+/// mismatch" naming the callee and the position, on the argument's own range; otherwise none.
+pub open spec fn mismatch_ok(t: Option<DataType>, pt: Option<DataType>, range: Range<usize>, callee: Seq<char>, n: int, errs: Seq<SplError>) -> bool {
+    if t is Some && pt is Some && t->0 != pt->0 { errs.len() == 1 && errs[0].0 == range && is_type_mismatch(errs[0].1, callee, n) } else { errs.len() == 0 }
+}
+pub open spec fn info_grew(o: AstInfo, n: AstInfo) -> bool {
+    n.errors@.len() >= o.errors@.len() && appended(o, n, n.errors@.len() - o.errors@.len())
+}
+/// m1: the argument after the reference-parameter rule; m2: after its own analysis; b: after the type rule
+pub open spec fn call_arg_mid(a: Expression, m1: Expression, m2: Expression, b: Expression, param: VariableEntry, callee: Seq<char>, n: int, table: LookupTable) -> bool {
+    &&& m1 == with_info(a, expr_info(m1)) && info_grew(expr_info(a), expr_info(m1))
+    &&& must_be_var_ok(a, param.is_ref, callee, n, tail(expr_info(a), expr_info(m1)))
+    &&& expr_post(m1, m2, table)
+    &&& b == with_info(m2, expr_info(b)) && info_grew(expr_info(m2), expr_info(b))
+    &&& mismatch_ok(expr_type(m1, table), param.data_type, expr_info(a).range, callee, n, tail(expr_info(m2), expr_info(b)))
+}
+//~assume the argument loop of CallStatement::analyze (`zip(args.iter_mut().map(as_mut), &params).enumerate()`) visits argument i together with parameter i, i counted from 0 (iterator semantics; R6); the rest of CallStatement::analyze (symbol table lookup, argument count rules) is not under contract
+//@extract spl_frontend/src/table/semantic.rs :: impl AnalyzeStatement for CallStatement :: fn analyze :: loopbody 0
+//@ rewrite self_name_clone_to_callee ref_ne
+//@ lift pub fn call_argument_rule(i: usize, arg: &mut Expression, param: &VariableEntry, callee: &Identifier, table: &LookupTable)
+//@ sig
+    requires i < usize::MAX,
+    ensures
+        exists|m1: Expression, m2: Expression| #[trigger] wit2(m1, m2) && call_arg_mid(*old(arg), m1, m2, *final(arg), *param, callee.value@, i + 1, *table), //# call_argument_rule::reference_and_type_rules_per_argument
+//@ before "let arg_type = arg.analyze(table);"
+let ghost m1 = *arg;
+                    
+//@ after "let arg_type = arg.analyze(table);"
+                    let ghost m2 = *arg;
+//@ at_end
+proof {
+                        let a = *old(arg);
+                        assert(expr_info(m1).errors@.subrange(0, expr_info(a).errors@.len() as int) =~= expr_info(a).errors@);
+                        if expr_info(m1).errors@.len() == expr_info(a).errors@.len() + 1 {
+                            assert(tail(expr_info(a), expr_info(m1)) =~= seq![expr_info(m1).errors@[expr_info(a).errors@.len() as int]]);
+                        } else {
+                            assert(tail(expr_info(a), expr_info(m1)) =~= Seq::<SplError>::empty());
+                        }
+                        assert(expr_info(*arg).errors@.subrange(0, expr_info(m2).errors@.len() as int) =~= expr_info(m2).errors@);
+                        if expr_info(*arg).errors@.len() == expr_info(m2).errors@.len() + 1 {
+                            assert(tail(expr_info(m2), expr_info(*arg)) =~= seq![expr_info(*arg).errors@[expr_info(m2).errors@.len() as int]]);
+                        } else {
+                            assert(tail(expr_info(m2), expr_info(*arg)) =~= Seq::<SplError>::empty());
+                        }
+                        assert(call_arg_mid(a, m1, m2, *arg, *param, callee.value@, i + 1, *table));
+                        assert(wit2(m1, m2));
+                    }
+//@end
+pub open spec fn wit2(a: Expression, b: Expression) -> bool { true }
+
+//~not_decided declaration and main rules (table/build.rs: HashMap, closures), call rules for the number of arguments and the callee lookup (symbol table), named-variable rules (symbol table), therefore "a valid program gets no diagnostics at all"
 //~not_decided termination of the trait-dispatched recursion (exec_allows_no_decreases_clause): partial correctness
 pub proof fn witness_rules(r: Range<usize>) {
     let e = SplError(r, sem(SemanticErrorMessage::OperatorDifferentTypes));
